@@ -91,8 +91,13 @@ def _order_case(vals, acc):
     from oslo_utils import versionutils as V
     a, b = vals[0]
     acc.nontrivial(repr((a, b)))
-    ia = V.convert_version_to_int('.'.join(map(str, a)))
-    ib = V.convert_version_to_int(b)
+    try:
+        ia = V.convert_version_to_int('.'.join(map(str, a)))
+        ib = V.convert_version_to_int(b)
+    except Exception as e:
+        acc.fail('order-raises', {'a': a, 'b': b, 'exception': type(e).__name__},
+                 {'order': [list(a), list(b)]})
+        return
     if (ia < ib) != (a < b) or (ia == ib) != (a == b):
         acc.fail('order', {'a': a, 'b': b, 'int_a': ia, 'int_b': ib}, {'order': [list(a), list(b)]})
 
